@@ -619,6 +619,32 @@ pub fn work(env: &Env, ctx: &Ctx, w: usize, nw: usize, plan: &Plan) -> Value {
         }
     }
 
+    // 3c. settings *values* that are free text: the input type.  (Beyond the
+    //     property's quantifier, which fixes algorithm, table type and
+    //     prefer-shift settings; cheap, and a panic here is still a panic.)
+    const INPUT_TYPES: &[&str] = &[
+        "Vec<", "&", "u8;", "not a type", "Vec<u8>>", "str,", "((", "[u8", "", "  ", "str str", "dyn", "impl", "fn()", "!", "_", "&'a str",
+        "*const u8", "[u8; 4]", "Vec<u8>", "std::string::String", "u8 as", "<", "'a", "r#type", "1", "\"str\"", "str // c", "(str, u8)", "[str]",
+    ];
+    for (gi, g) in ctx.corpus.iter().enumerate().filter(|(_, g)| g.bytes.len() <= 1024) {
+        counter += 1;
+        if !mine(counter) || gi % 9 != 0 {
+            continue;
+        }
+        for it in INPUT_TYPES {
+            for custom in [false, true] {
+                for glr in [false, true] {
+                    let mut spec = if glr { Spec::glr_default() } else { Spec::lr_default() };
+                    spec.custom_lexer = custom;
+                    spec.input_type = it.to_string();
+                    let case = Case { grammar: g.clone(), damage: format!("none; setting input_type = {it:?}"), spec, world: World::reference(), actions: None };
+                    let o = run_case(env, &case);
+                    record(ctx, &mut st, &case, "setting-input-type", &o, counter, &mut viol);
+                }
+            }
+        }
+    }
+
     // 4. syscall failure enumeration: every I/O event of the workload x every
     //    errno legal for its call class
     for (gi, g) in ctx.corpus.iter().enumerate().filter(|(_, g)| g.bytes.len() <= 5 * 1024).take(plan.syscall_grammars) {
